@@ -186,14 +186,14 @@ def dbl(x):
 def _transport(name, state):
   """The checkpoint as it travels.  -> function giving the state to restore.
 
-  A checkpoint is restored twice per generation (probe + continuation).  Both
-  restores get their own materialisation of the checkpoint: the bytes are
-  loaded twice, the in-memory object is deep-copied for the probe (from_state
-  may take ownership of the object it is given; restoring one in-memory object
-  twice is not part of the property).
+  A checkpoint is restored twice per generation (probe + continuation).  The
+  bytes are loaded twice; the in-memory object is handed to from_state twice
+  *as it is*: a captured state is a value, the first restore must not use it up
+  (it did for pipeline aggregates until fix 55747be - found through a seeding
+  agent's side remark, the probe used to get a deep copy).
   """
   if name == 'object':
-    return lambda probe=False: copy.deepcopy(state) if probe else state
+    return lambda probe=False: state
   if name == 'pickle':
     data = pickle.dumps(state)
     return lambda probe=False: pickle.loads(data)
